@@ -1,6 +1,7 @@
 package main
 
 import (
+	"os"
 	"go/constant"
 	"go/types"
 	"fmt"
@@ -5883,6 +5884,67 @@ func extraLiveConnectionStats(c *Ctx, r *Report, rule string) {
 		for _, v := range flatResults(f, 0) {
 			mm, isMake := v.(*ssa.MakeMap)
 			if !isMake {
+				// a shared helper that builds the snapshot: it makes the map itself and fills it with what the
+				// conversion closure handed in at this call returns — which must be the atomic load
+				if call, ok := v.(*ssa.Call); ok {
+					if g := call.Call.StaticCallee(); g != nil && g.Blocks != nil && c.inRepo(g) {
+						fresh := true
+						for _, rv := range flatResults(g, 0) {
+							if _, ok := resolveOrigin(c, rv, 4).(*ssa.MakeMap); !ok {
+								fresh = false
+							}
+						}
+						okVals := fresh
+						if os.Getenv("OLLACHECK_DEBUG") != "" {
+							fmt.Fprintln(os.Stderr, "DBG live-snapshot helper", fname(g), "fresh", fresh, "anon", len(withAnon(g)))
+						}
+						for _, h := range withAnon(g) {
+							eachInstr(h, func(in ssa.Instruction) {
+								mu, ok := in.(*ssa.MapUpdate)
+								if !ok {
+									return
+								}
+								vc, ok := mu.Value.(*ssa.Call)
+								if !ok {
+									okVals = false
+									return
+								}
+								// which function value is called: a parameter of g (possibly captured by g's closure)
+								fv := resolveOrigin(c, vc.Call.Value, 6)
+								var conv *ssa.Function
+								switch a := fv.(type) {
+								case *ssa.MakeClosure:
+									conv, _ = a.Fn.(*ssa.Function)
+								case *ssa.Function:
+									conv = a
+								case *ssa.Parameter:
+									for i, p := range g.Params {
+										if p == a && i < len(call.Call.Args) {
+											switch b := call.Call.Args[i].(type) {
+											case *ssa.MakeClosure:
+												conv, _ = b.Fn.(*ssa.Function)
+											case *ssa.Function:
+												conv = b
+											}
+										}
+									}
+								}
+								if conv == nil || topParent(conv) != f {
+									okVals = false
+									return
+								}
+								for _, rv := range flatResults(conv, 0) {
+									if kind, _, _, _, isA := atomicFieldCall(valueInstr(rv)); !isA || kind != "load" {
+										okVals = false
+									}
+								}
+							})
+						}
+						if okVals {
+							continue
+						}
+					}
+				}
 				bad = "a return hands out a map that was not made in this call (" + c.Pos(v.Pos()) + ")"
 				continue
 			}
@@ -6074,6 +6136,32 @@ func extraC07OldStatusFromRecord(c *Ctx, r *Report) {
 					}
 				}
 			}
+			if nStatus == 0 && bad == "" {
+				// the trigger was split off into a helper: the comparison governs the helper's call sites
+				for _, site := range c.staticCallSites(func(ci callInfo) bool { return ci.Static == topParent(f) }) {
+					for _, cf := range normFacts(condFacts(site.Block())) {
+						var ops []ssa.Value
+						if x, ok := cf.Cond.(*ssa.BinOp); ok {
+							ops = []ssa.Value{x.X, x.Y}
+						} else {
+							ops = []ssa.Value{cf.Cond}
+						}
+						for _, op := range ops {
+							if bo, ok := op.(*ssa.BinOp); ok {
+								for _, o2 := range []ssa.Value{bo.X, bo.Y} {
+									if isNamed(o2.Type(), pkgDomain, "EndpointStatus") {
+										leaf(o2, 5)
+									}
+								}
+								continue
+							}
+							if isNamed(op.Type(), pkgDomain, "EndpointStatus") {
+								leaf(op, 5)
+							}
+						}
+					}
+				}
+			}
 			switch {
 			case bad != "":
 				r.Bad("C07-R15", key, in.Pos(), "the recovery trigger compares "+bad+": transitions written to the repository by others (the proxy's offline marks) are invisible to it")
@@ -6114,6 +6202,12 @@ func extraC08StampBeforeOpen(c *Ctx, r *Report) {
 					return false
 				}
 				k, isK := constInt(val)
+				if !isK {
+					// an accessor taking a bool (`setOpen(true)`)
+					if kb, ok := val.(*ssa.Const); ok && kb.Value != nil && kb.Value.String() == "true" {
+						k, isK = 1, true
+					}
+				}
 				if !isK || k == 0 {
 					return false
 				}
@@ -6121,19 +6215,57 @@ func extraC08StampBeforeOpen(c *Ctx, r *Report) {
 				n := strings.ToLower(cfield(o, fld))
 				return strings.Contains(n, "open") || strings.Contains(n, "state")
 			}
+			// an accessor that is more than one atomic operation (`setOpen(tripped bool)`, `setState(s State)` with a
+			// conversion): it stores into the state/open field, and this call hands it a non-zero / true constant
+			storesStateField := func(sc *ssa.Function) bool {
+				if sc == nil || sc.Blocks == nil {
+					return false
+				}
+				hit := false
+				eachInstr(sc, func(x ssa.Instruction) {
+					kind, o, fld, _, ok := atomicFieldCall(x)
+					if ok && kind == "store" && isNamed(o, bs.Pkg, bs.Type) {
+						n := strings.ToLower(cfield(o, fld))
+						if strings.Contains(n, "open") || strings.Contains(n, "state") {
+							hit = true
+						}
+					}
+				})
+				return hit
+			}
+			isOpenAccessorCall := func(in ssa.Instruction) bool {
+				cc := getCall(in)
+				if cc == nil {
+					return false
+				}
+				sc := cc.StaticCallee()
+				if sc == nil || sc.Signature.Recv() == nil || !strings.HasSuffix(fnPkgPath(sc), bs.Pkg) || !storesStateField(sc) {
+					return false
+				}
+				for _, a := range cc.Args[1:] {
+					if k, ok := constInt(a); ok && k != 0 {
+						return true
+					}
+					if kb, ok := a.(*ssa.Const); ok && kb.Value != nil && kb.Value.String() == "true" {
+						return true
+					}
+				}
+				return false
+			}
 			eachInstr(f, func(in ssa.Instruction) {
 				if kind, o, fld, _, ok := atomicFieldCall(in); ok && kind == "store" && isNamed(o, bs.Pkg, bs.Type) && cfield(o, fld) == bs.LastFailField {
 					stamps = append(stamps, in)
 				}
-				if isOpenStore(in) {
+				if isOpenStore(in) || isOpenAccessorCall(in) {
 					opens = append(opens, in)
+					return
 				}
 				// a call of a method of the breaker that opens it (transitionToOpen)
 				if cc := getCall(in); cc != nil {
 					if sc := cc.StaticCallee(); sc != nil && sc != f && sc.Signature.Recv() != nil && strings.HasSuffix(fnPkgPath(sc), bs.Pkg) && sc.Blocks != nil {
 						opensInside := false
 						eachInstr(sc, func(x ssa.Instruction) {
-							if isOpenStore(x) {
+							if isOpenStore(x) || isOpenAccessorCall(x) {
 								opensInside = true
 							}
 						})
@@ -7164,8 +7296,14 @@ func extraC19StreamErrorExcuse(c *Ctx, r *Report) {
 				return
 			}
 			sig := call.Call.Signature()
-			if sig.Results().Len() < 2 || !isIntegerType(sig.Results().At(0).Type()) {
-				return // the relay returns (bytes written, …, error)
+			takesWriter := false
+			for _, a := range call.Call.Args {
+				if isNamed(a.Type(), "net/http", "ResponseWriter") {
+					takesWriter = true
+				}
+			}
+			if sig.Results().Len() < 2 || !takesWriter {
+				return // the relay is handed the client's writer and returns (what it relayed, …, error)
 			}
 			for _, ref := range *ex.Referrers() {
 				tc, ok := ref.(*ssa.Call)
